@@ -17,6 +17,8 @@ MODULES = [
     "translation",
     "keys",
     "frames",
+    "spaces",
+    "minorgrid",
 ]
 
 
